@@ -96,3 +96,129 @@ def source_guard(ka, b):
                     stride, lhs, other, cand[0].name, lhs, cand[0].name)
     return False, "no guard of the form `coordinate < N` (unsigned) on the wrapped source coordinate itself; in-bunch part %s, guards: %s" % (
         rest, I.guard_text(din.guards))
+
+
+# ---------------------------------------------------------------------------------------------------------------------
+# the source-map table is a cache of the displacement field: whoever changes `_offset` must rebuild `_hinfo`
+
+_MUTATORS = {"swap", "assign", "resize", "clear", "push_back", "emplace_back", "insert", "erase", "fill"}
+_BULK_DST = {"std::copy_n": 2, "std::copy": 2, "std::fill_n": 0, "std::fill": 0, "std::transform": -1, "std::move": 2, "std::generate": 0,
+             "std::generate_n": 0, "std::iota": 0, "std::swap_ranges": 2, "std::memcpy": 0, "memcpy": 0, "std::memset": 0, "memset": 0}
+
+
+def _guard_keys(guards):
+    out = set()
+    for g, pol in I.plain_guards(guards):
+        if g is None:
+            continue
+        if g.get("k") == "SwitchCase":
+            out.add(("case", A.show(g["cond"]), str(g["labels"])))
+        elif g.get("k") == "Catch":
+            out.add(("catch", g["caught"]))
+        else:
+            out.add((bool(pol), A.show(A.strip(g))))
+    return out
+
+
+def _is_offset_field(n):
+    return A.this_field(n) == "_offset"
+
+
+def _full_content_test(g, pol):
+    """Is (g, pol) the condition "the whole displacement field differs from another vector"?  Accepted spellings:
+    `_offset != v`, `!(_offset == v)`, `!std::equal(_offset.begin(), _offset.end(), v.begin())` (either operand order).
+    A rebuild skipped when *all* displacements are unchanged is still a rebuild on every path that changed something."""
+    n = A.strip(g)
+    while n.get("k") == "UnaryOperator" and n.get("op") == "!":
+        n, pol = A.strip(n["c"][0]), not pol
+    if n.get("k") == "CXXOperatorCallExpr" and n.get("op") in ("!=", "==") and len(n.get("args", [])) == 2:
+        if any(_is_offset_field(a) for a in n["args"]) and all("vector" in (A.strip(a).get("ctype") or "") for a in n["args"]):
+            return (n["op"] == "!=") == bool(pol)
+    if n.get("k") == "CallExpr" and n.get("callee") == "std::equal" and len(n.get("args", [])) == 3 and not pol:
+        def rng(a, which):
+            a = A.strip(a)
+            while a.get("k") in ("CXXConstructExpr", "CXXTemporaryObjectExpr") and len(a.get("args", [])) == 1:
+                a = A.strip(a["args"][0])
+            if a.get("k") == "CXXMemberCallExpr" and (a.get("callee") or "").split("::")[-1] in which:
+                return A.call_object(a)
+            return None
+        b, e, o = rng(n["args"][0], ("begin", "cbegin")), rng(n["args"][1], ("end", "cend")), rng(n["args"][2], ("begin", "cbegin"))
+        if b is not None and e is not None and o is not None and A.show(b) == A.show(e) and (_is_offset_field(b) or _is_offset_field(o)):
+            return True
+    return False
+
+
+def offset_writes(scan, owner_ctor=False):
+    """every event of a scanned function body that changes elements of the displacement field `_offset`:
+    element stores (also through aliases: the scanner resolves them), mutating container calls on the field, bulk algorithms
+    whose destination is the field -> list of (seq, line, guards, loops, text)"""
+    out = []
+    for a in scan.accesses:
+        if a.kind == "store" and a.base == "_offset" and (a.idx is not None or getattr(a, "bulk", None) is not None):
+            out.append((a.seq, a.line, a.guards, a.loops, "store _offset[%s]" % (", ".join(str(i) for i in a.idx) if a.idx else "*")))
+    for c in scan.calls:
+        short = (c.callee or "").split("::")[-1]
+        if c.obj is not None and A.this_field(c.obj) == "_offset" and short in _MUTATORS:
+            if owner_ctor and short in ("resize", "assign"):
+                continue            # the constructor of the class that owns the field sizes it: allocation, not a change of an established field
+            out.append((c.seq, c.line, c.guards, c.loops, "_offset.%s(...)" % short))
+        elif c.callee in _BULK_DST:
+            k = _BULK_DST[c.callee]
+            if k < 0:
+                k = len(c.args) - 2
+            if 0 <= k < len(c.args) and "_offset" in str(c.args[k]):
+                out.append((c.seq, c.line, c.guards, c.loops, "%s -> %s" % (c.callee, c.args[k])))
+    return out
+
+
+def offset_table_sync(chk, prog, rule):
+    """Rule: in every function of the KickMap family that changes `_offset`, each change is followed -- under no further
+    condition -- by a rebuild of the source-map table (`updateSM`, directly or through a family member that itself always
+    rebuilds).  Otherwise apply() moves the grid by displacements that are no longer the ones in `_offset`."""
+    fam = {"vfps::KickMap"} | prog.subclasses("vfps::KickMap")
+    fns = [f for f in prog.functions.values() if f.get("class") in fam and f.get("body")]
+    scans = {}
+    for f in fns:
+        try:
+            scans[f["sig"]] = I.scan(f)
+        except Exception:          # a member the scanner cannot read cannot be shown to keep the table in sync
+            scans[f["sig"]] = None
+    # must-rebuild summary: functions that call updateSM (or another must-rebuild member) unconditionally
+    must = {}
+    changed = True
+    while changed:
+        changed = False
+        for f in fns:
+            s = scans[f["sig"]]
+            if s is None or f["sig"] in must:
+                continue
+            for c in s.calls:
+                tgt = c.sig or c.callee
+                if ((c.callee or "").endswith("::updateSM") or tgt in must) and not _guard_keys(c.guards) and not c.loops:
+                    must[f["sig"]] = c.seq
+                    changed = True
+                    break
+    nw = 0
+    for f in fns:
+        if f["name"] == "updateSM":
+            continue
+        s = scans[f["sig"]]
+        if s is None:
+            continue
+        ws = offset_writes(s, owner_ctor=(f.get("kind") == "ctor" and f.get("class") == "vfps::KickMap"))
+        if not ws:
+            continue
+        chk.used(f)
+        syncs = [c for c in s.calls if (c.callee or "").endswith("::updateSM") or (c.sig or c.callee) in must]
+        for seq, line, guards, loops, text in ws:
+            gk = _guard_keys(guards)
+            later = [c for c in syncs if c.seq > seq and _guard_keys([(g_, p_) for g_, p_ in I.plain_guards(c.guards)
+                                                                     if not (isinstance(g_, dict) and g_.get("k") not in ("SwitchCase", "Catch")
+                                                                             and _full_content_test(g_, p_))]) <= gk and not [L for L in c.loops if L not in loops]]
+            nw += 1
+            short = f["qname"].replace("vfps::", "")
+            chk.check(bool(later), rule, "%s:%d" % (f.where.split(":")[0], line),
+                      "%s changes the displacement field (%s) and rebuilds the source-map table afterwards on every path on which it did%s"
+                      % (short, text, "" if later else " -- rebuild calls: %s" % [(c.line, I.guard_text(c.guards)) for c in syncs]),
+                      "%s:offset-change-without-rebuild:%s" % (short, text.split("[")[0].split("(")[0].strip()))
+    chk.floor(rule + "-offset-writers", nw, 6)
